@@ -3,7 +3,8 @@ import PyxelModel.Model.C03
 /-! Line-protocol glue for C03.
 
 request `{"op":"run","npix":n,"nd":b,"abs":[q…],"prior":snap,
-          "steps":[[{"group":g,"name":m,"ops":[["set",bucket,dtype,[int…]]|["add",bucket,k]|["same",bucket]]}…]…]}`
+          "steps":[[{"group":g,"name":m,"ops":[["set",bucket,dtype,[int…]]|["add",bucket,k]|["same",bucket]|["addat",bucket,[int…]]|
+                 ["scale",bucket,k]|["moveto",bucket,[nat…]]|["zeroat",bucket,p]|["collect"]]}…]…]}`
 answer  `{"snaps":[snap…],"record":{"times":[q…],"vars":{bucket:{"dt":d,"slices":[[int…]|null…]}}}|null,
           "debug":[[step,group,model,[[bucket,dtype,[int…]]…]]…],"debug_orig":[…],"image_orig":[…]}`
 snap = `{"photon":null|[dtype,[int…]],…}`. -/
@@ -56,6 +57,11 @@ def asWrite (j : Json) : R WriteOp :=
   | .arr #[.str "set", b, d, v] => do .ok (.set (← asBk b) ⟨← asDt d, ← asList asInt v⟩)
   | .arr #[.str "add", b, k] => do .ok (.add (← asBk b) (← asInt k))
   | .arr #[.str "same", b] => do .ok (.same (← asBk b))
+  | .arr #[.str "addat", b, v] => do .ok (.addAt (← asBk b) (← asList asInt v))
+  | .arr #[.str "scale", b, k] => do .ok (.scale (← asBk b) (← asInt k))
+  | .arr #[.str "moveto", b, v] => do .ok (.moveTo (← asBk b) (← asList asNat v))
+  | .arr #[.str "zeroat", b, k] => do .ok (.zeroAt (← asBk b) (← asNat k))
+  | .arr #[.str "collect"] => .ok .collect
   | _ => .error s!"bad write {j.compress}"
 
 def asModel (j : Json) : R ModelRun := do
